@@ -6,5 +6,5 @@ export VERIF_DIR=$PWD
 [ -n "$VP_RUN_REPO" ] && export VERIF_REPO=$VP_RUN_REPO
 (cd engine && go build -o ../bin/symgo ./cmd/symgo) || exit 2
 for p in "$@"; do
-  echo "=== $p"; /usr/bin/time -f "%es %MKB" ./bin/symgo check -prop $p -tier ${TIER:-thorough} 2>&1 | grep "paths=\|INCON\|VIOL\|exit=\|KB" | cut -c1-300
+  echo "=== $p"; /usr/bin/time -f "%es %MKB" ./bin/symgo check -prop $p -tier ${TIER:-thorough} ${ONLY:+-only $ONLY} 2>&1 | grep "paths=\|INCON\|VIOL\|exit=\|KB" | cut -c1-300
 done
